@@ -83,7 +83,7 @@ def run(tier, seed, replay=None):
     rng = random.Random(seed)
     tolf = state.knot_tolerance
     tol = C.fr(tolf)
-    nobj = 260 if tier == 'quick' else 5000
+    nobj = 600 if tier == 'quick' else 5000
     cases = []
     dist = {'op': {}, 'pardim': {}, 'periodic_dir': {}, 'n_inserted': {}, 'errors': {}}
     if replay:
